@@ -74,22 +74,23 @@ def check_fill_helpers(run, db):
         roles = {0: 'memory', 1: 'node_size', 2: 'fence_size'}
         S = [s for s in fwd.summarize(f, db=db, roles=roles, no_forward=True) if s.end == 'return']
         probs = []
+        fence_on = bool(build.CONFIGS[db.config]['FOONATHAN_MEMORY_DEBUG_FENCE'])
+        F = {'$fence_size': 1} if fence_on else {}
         for s in S:
-            fs = '0' if any(w[0] == '$fence_size' and w[1] == '0' for w in s.writes) else '$fence_size'
-            fills = [c[0] for c in s.calls if c[1].get('short') == 'debug_fill']
-            want = ['debug_fill($memory,%s,g:debug_magic::fence_memory)' % fs,
-                    'debug_fill(($memory + %s),$node_size,g:debug_magic::new_memory)' % fs,
-                    None]
+            # by value: three fills at consecutive addresses - fence (F bytes at memory), new memory (node_size bytes behind it), fence
+            # (F bytes behind that); F is the parameter when fences are compiled in and 0 otherwise, however that is spelled
+            fills = [c for c in s.calls if c[1].get('short') == 'debug_fill' and len(c.sub.get('args', [])) == 3]
             if len(fills) != 3:
                 probs.append('%d fills, expected fence/new/fence' % len(fills))
                 continue
-            if fills[0] != want[0].replace('($memory + 0)', '$memory'):
-                probs.append('first fill is %s' % fills[0])
-            if 'new_memory' not in fills[1] or '$node_size' not in fills[1]:
-                probs.append('second fill is %s' % fills[1])
-            if 'fence_memory' not in fills[2] or '$node_size' not in fills[2]:
-                probs.append('third fill is %s' % fills[2])
-            if s.ret not in ('($memory + %s)' % fs, '(%s + $memory)' % fs):
+            sig = [(linear.lin(c.sub['args'][0], roles), linear.lin(c.sub['args'][1], roles), sym.canon(c.sub['args'][2], roles)) for c in fills]
+            at = {'$memory': 1}
+            for k_, (sz, mg, name) in enumerate(((F, 'g:debug_magic::fence_memory', 'first'), ({'$node_size': 1}, 'g:debug_magic::new_memory', 'second'),
+                                                 (F, 'g:debug_magic::fence_memory', 'third'))):
+                if sig[k_] != (at, sz, mg):
+                    probs.append('%s fill is %s' % (name, fills[k_][0]))
+                at = linear._add(at, sz, 1)
+            if s.ret_term is None or linear.lin(s.ret_term, roles) != linear._add({'$memory': 1}, F, 1):
                 probs.append('returns %s, not memory + fence' % s.ret)
         _emit(run, 'R-FILL.new', f, db, probs, 'fence, new-memory, fence; returns memory + fence', {'function': 'detail::debug_fill_new', 'role': 'fill order'})
     return n
@@ -468,6 +469,7 @@ def run(run):
     run.rule('R-FENCE.lowlevel', 'fence arithmetic of the low-level allocators', floor=4)
     run.rule('R-FILL.lists', 'free lists fill on acquire and release', floor=10)
     run.rule('R-FILL.stack', 'stack fill order', floor=1)
+    run.rule('R-FENCE.bound', 'the bytes a bump allocation fills - fences included - are the bytes its guard has checked (shared rule R-BOUND of C01)', floor=4)
     run.rule('R-FILL.arena', 'arena blocks marked internal / internal-freed', floor=4)
     run.explanation = ('The two byte-level primitives are decided for their recognised shapes (memset; byte scan with a cursor), every use of them by term; '
                        '"in-bounds writes are never reported" is not decided.')
@@ -489,6 +491,11 @@ def run(run):
             run.broke('array siblings of the pools not found [%s]' % cfg)
         if check_lists(run, db) < 8:
             run.broke('free list functions not found [%s]' % cfg)
+        # a fence written behind the node must lie inside what the allocation's guard compared with the region end: the shared
+        # bound rule of C01 counts both fences in the advance of the cursor
+        from rules import c01, c05
+        if c01.check_bound(c05._Renamed(run, 'R-FENCE.bound'), db) < 2:
+            run.broke('bump allocation sites not found [%s]' % cfg)
         if check_stack_and_arena(run, db) < 3:
             run.broke('stack / arena fill sites not found [%s]' % cfg)
     if not any_fill:
